@@ -27,11 +27,14 @@ const (
 	VMCall
 	Closure
 	Interp
+	// the public engine (yae.Expr), kept alive across cases: bytecode and closure compiler
+	Engine
+	EngineClosure
 	NBackends
 )
 
 func (b Backend) String() string {
-	return [...]string{"vm-switch", "vm-callthread", "closure", "interp"}[b]
+	return [...]string{"vm-switch", "vm-callthread", "closure", "interp", "engine-vm", "engine-closure"}[b]
 }
 
 func (b Backend) compiler() compiler.Compiler {
@@ -40,8 +43,10 @@ func (b Backend) compiler() compiler.Compiler {
 		return vm.Compile
 	case VMCall:
 		return vm.CompileCallThreaded
-	case Closure:
+	case Closure, EngineClosure:
 		return closure.Compile
+	case Engine:
+		return vm.Compile
 	default:
 		return interp.Interp
 	}
